@@ -20,7 +20,7 @@ RULE = (
 )
 ASSUMPTIONS = ["snapshots compare object identities, not reprs", "graphviz 'dot' is available for render cases (else they are skipped and counted)"]
 
-OPS = ["run_ok", "run_fail", "run_stalefail", "run_cycle", "dry", "render", "render_dry", "concurrent", "concurrent_reg", "copies", "run_opts", "foreign_entry", "run_dry_plan", "stub_source", "scope_independence"]
+OPS = ["run_ok", "run_fail", "run_stalefail", "run_cycle", "dry", "render", "render_dry", "concurrent", "concurrent_reg", "copies", "run_opts", "foreign_entry", "run_dry_plan", "stub_source", "scope_independence", "empty_plan"]
 
 
 def _anyargs(*a, **k):
@@ -38,10 +38,53 @@ def gen_cases(tier, seed):
     return out
 
 
+def run_empty_plan(desc):
+    """An EMPTY plan (nothing built yet) given to run with a node-free output, with and without dry_run / transform_physical / a registry: it
+    is still empty afterwards, and what a dry run hands back is not the caller's own Plan object."""
+    import uberjob
+
+    rng = random.Random(desc["seed"])
+    plan = uberjob.Plan()
+    registry = uberjob.Registry() if rng.random() < 0.5 else None
+    before = snapshot.plan_snapshot(plan)
+    before_r = snapshot.registry_snapshot(registry)
+    output = rng.choice([[], {}, (), [1, 2], {"k": 1}, 7, None, "text", [[], {}]])
+    how = rng.choice(["dry", "dry", "transform", "plain", "dry_transform"])
+    kw = dict(output=output, registry=registry, progress=None, max_workers=rng.choice([1, 2]))
+
+    def tp(p_, o_):
+        p_.call(len, [1])  # the callback may build on what it is handed: that is the physical plan, never the caller's
+        return p_, o_
+
+    if "transform" in how:
+        kw["transform_physical"] = tp
+    bad = None
+    try:
+        res = uberjob.run(plan, dry_run=how.startswith("dry"), **kw)
+    except BaseException as e:
+        bad = f"run on an empty plan (output={output!r}, {how}) raised {e!r}"
+        res = None
+    if bad is None:
+        d = snapshot.diff(before, snapshot.plan_snapshot(plan))
+        if d:
+            bad = f"run on an EMPTY plan (output={output!r}, {how}) modified the caller's Plan: {d}"
+        elif how.startswith("dry") and isinstance(res, tuple) and res[0] is plan:
+            bad = f"the dry run of an empty plan (output={output!r}) handed back the caller's own Plan object as the physical plan"
+        elif snapshot.diff(before_r, snapshot.registry_snapshot(registry)):
+            bad = "run on an empty plan modified the caller's Registry"
+    r_ = {"status": "ok", "counters": {"operations": 1, "op_empty_plan": 1, "snapshots_compared": 1}, "nontrivial": True, "sig": f"empty|{desc['seed'] % 100000}",
+          "sets": {"ops": ["empty_plan" + ("+registry" if registry is not None else "")]}}
+    if bad:
+        r_.update(status="violation", detail=f"[empty_plan] {bad}", mechanism="plan-mutated")
+    return r_
+
+
 def run_case(desc):
     import uberjob
 
     op = desc["op"]
+    if op == "empty_plan":
+        return run_empty_plan(desc)
     rng = random.Random(desc["seed"])
     counters = {"operations": 1, f"op_{op}": 1, "snapshots_compared": 0}
     bad = None
